@@ -794,19 +794,38 @@ namespace
         std::atomic<bool>       finished{false};
         std::mutex              wm;
         std::condition_variable wcv;
+        // a hang = no thread records any event for watchdog_ms (a deadlock / a lost wake-up with nothing left to wake the
+        // loop), or the run exceeds four times that in total; slow progress on a loaded machine is not a hang
         std::thread             watchdog([&] {
             std::unique_lock lk(wm);
-            if (!wcv.wait_for(lk, std::chrono::milliseconds(scn.watchdog_ms), [&] { return finished.load(); }))
+            const auto       t_start    = std::chrono::steady_clock::now();
+            auto             t_progress = t_start;
+            std::int64_t     last_seq   = -1;
+            for (;;)
             {
-                r.frozen.store(true);
+                if (wcv.wait_for(lk, std::chrono::milliseconds(200), [&] { return finished.load(); })) { return; }
+                const auto         now = std::chrono::steady_clock::now();
+                const std::int64_t sq  = r.seq.load(std::memory_order_relaxed);
+                if (sq != last_seq)
                 {
-                    std::lock_guard rl(r.rm);
-                    r.free_run = true;
-                    r.rcv.notify_all();
+                    last_seq   = sq;
+                    t_progress = now;
                 }
-                std::this_thread::sleep_for(std::chrono::milliseconds(20));
-                dump(r, "hang", "watchdog: the run did not return within " + std::to_string(scn.watchdog_ms) + " ms");
-                _exit(4);
+                const bool stalled = now - t_progress > std::chrono::milliseconds(scn.watchdog_ms);
+                const bool too_long = now - t_start > std::chrono::milliseconds(4 * scn.watchdog_ms);
+                if (stalled || too_long)
+                {
+                    r.frozen.store(true);
+                    {
+                        std::lock_guard rl(r.rm);
+                        r.free_run = true;
+                        r.rcv.notify_all();
+                    }
+                    std::this_thread::sleep_for(std::chrono::milliseconds(20));
+                    dump(r, "hang", stalled ? "watchdog: no thread made progress for " + std::to_string(scn.watchdog_ms) + " ms"
+                                            : "watchdog: the run did not return within " + std::to_string(4 * scn.watchdog_ms) + " ms");
+                    _exit(4);
+                }
             }
         });
 
